@@ -106,6 +106,15 @@ unsafe fn maybe_pipe_hook() {
 /// log a line before a waitpid blocks (pipe engine: what the parent holds while it waits)
 pub static mut VERBOSE_WAIT: bool = false;
 
+/// suspend / resume tracing (returns the previous state): what runs in between is invisible to the log and fault plan
+pub fn set_on(on: bool) -> bool {
+    unsafe {
+        let was = ST.on;
+        ST.on = on;
+        was
+    }
+}
+
 /// the log so far, without stopping (watchdog)
 pub fn peek() -> String {
     unsafe {
